@@ -20,7 +20,7 @@ ID = "C20"
 LEVEL = "exploration"
 SHARDS = {"quick": 1, "thorough": 8}
 N_QUICK, N_THOROUGH = 250, 2500
-RULE = ("case = (violated condition from the C06 grammar, optionally naming _ARGS/_KWARGS; argument values with "
+RULE = ("case = (violated condition from the C06 grammar on a require, ensure or class invariant, optionally naming _ARGS/_KWARGS; argument values with "
         "address-free reprs incl. sets of ints and of strings, strings up to 300 and lists up to 60 elements; the "
         "contract's a_repr = the default or a reprlib.Repr with drawn limits (maxstring 5..40, maxlist/maxset/maxdict/"
         "maxtuple 1..8, maxlevel 1..3); the function also receives a function, a class and a module as arguments). "
@@ -69,7 +69,7 @@ def build(case):
         # keeps the condition falsy and makes it name (and evaluate) the placeholder
         ctext = GR.canon("len(%s) < 0 or (%s)" % (nm, ctext))
     lam_params = sorted(set(lam_params) | set(named))
-    text, start, end, scope = RD.module_text(ctext, lam_params, role="require", is_async=case["async"],
+    text, start, end, scope = RD.module_text(ctext, lam_params, role=case.get("role", "require"), is_async=case["async"],
                                              a_repr="AR" if case.get("limits") else None,
                                              prelude=prelude_for(case.get("limits")))
     return {"text": text, "ctext": ctext, "lam_params": lam_params, "inputs": inputs, "b": b}
@@ -89,7 +89,7 @@ def messages_for(case, built, orders, npos_list, repeat=1):
         for rep in range(repeat):
             for order in orders:
                 for npos in npos_list:
-                    exc = RD.call(mod, "require", case["async"], built["inputs"], order=order, npos=npos)
+                    exc = RD.call(mod, case.get("role", "require"), case["async"], built["inputs"], order=order, npos=npos)
                     out.append(("rep%d order=%s npos=%d" % (rep, ",".join(order[:4]), npos), exc))
             try:
                 mod.mod.unrelated(-1)
@@ -120,7 +120,7 @@ def check_case(ctx, case, collected=None):
     jcase["final_text"] = built["ctext"]
 
     def fail(clause, detail):
-        ctx.fail("%s|%s" % (clause, "custom-a_repr" if case.get("limits") else "default-a_repr"), jcase,
+        ctx.fail("%s|%s|%s" % (clause, "custom-a_repr" if case.get("limits") else "default-a_repr", case.get("role", "require")), jcase,
                  "%s\ncondition: lambda %s: %s\nlimits: %r\ninputs: %r" % (
                      detail, ", ".join(built["lam_params"]), built["ctext"], case.get("limits"), case["inputs"]))
 
@@ -159,10 +159,11 @@ def check_case(ctx, case, collected=None):
     try:
         before = set(ctx.failures)
         sub = core.Ctx("C20", "quick", 0)
-        c06.judge(sub, dict(jcase, role="require", features=case.get("features", [])), built["ctext"], built["lam_params"],
+        c06.judge(sub, dict(jcase, role=case.get("role", "require"), features=case.get("features", [])), built["ctext"], built["lam_params"],
                   dict(built["b"], **extra_bindings(case, named, built)), built["inputs"], nodes, rec, parsed, str(first))
         for b_, f in sub.failures.items():
-            ctx.fail("(5)" + b_ + ("|custom-a_repr" if case.get("limits") else "|default-a_repr"), jcase, f.message)
+            ctx.fail("(5)" + b_ + ("|custom-a_repr" if case.get("limits") else "|default-a_repr") + "|" + case.get("role", "require"),
+                     jcase, f.message)
             return
     finally:
         c06.AREPR = None
@@ -171,6 +172,7 @@ def check_case(ctx, case, collected=None):
     exceeds = any(("..." in v) for _, v in parsed["entries"] if isinstance(v, str))
     nt = exceeds or any(k in ("ss", "zs") for k in keys) or len(keys) >= 4
     ctx.count("limits:" + ("custom" if case.get("limits") else "default"))
+    ctx.count("role:" + case.get("role", "require"))
     if exceeds:
         ctx.count("a_value_exceeds_a_limit")
     for nm in named:
@@ -204,8 +206,10 @@ def st_case(draw):
     names = list(GR.ARGS) + ["Y"]
     perm = draw(st.lists(st.sampled_from(names), min_size=2, max_size=4, unique=True))
     named = [n for n in ("_ARGS", "_KWARGS") if draw(st.integers(0, 5)) == 0]
-    return {"text": cond["text"], "params": cond["params"], "features": cond["features"], "role": "require",
-            "async": draw(st.integers(0, 4)) == 0, "inputs": draw(GR.st_inputs(long_values=draw(st.booleans()))),
+    # _ARGS/_KWARGS are placeholders of function contracts; the other cases rotate over the three contract kinds
+    role = "require" if named else draw(st.sampled_from(["require", "require", "ensure", "invariant"]))
+    return {"text": cond["text"], "params": cond["params"], "features": cond["features"], "role": role,
+            "async": role != "invariant" and draw(st.integers(0, 4)) == 0, "inputs": draw(GR.st_inputs(long_values=draw(st.booleans()))),
             "limits": limits, "perm": perm, "named": named, "npos": draw(st.integers(1, 3))}
 
 
@@ -271,9 +275,10 @@ def directed(ctx, collected):
     for text, over, limits in DIRECTED:
         inputs = dict(base)
         inputs.update(over)
-        check_case(ctx, {"text": text, "params": GR.free_params(text), "features": ["directed"], "role": "require",
-                         "async": False, "inputs": inputs, "limits": limits, "perm": ["x", "s", "xs"], "named": [],
-                         "npos": 2}, collected)
+        for role in ("require", "ensure", "invariant"):
+            check_case(ctx, {"text": text, "params": GR.free_params(text), "features": ["directed"], "role": role,
+                             "async": False, "inputs": inputs, "limits": limits, "perm": ["x", "s", "xs"], "named": [],
+                             "npos": 2}, collected)
 
 
 def run(ctx, tier, seed, shard, nshards):
